@@ -97,7 +97,7 @@ def h_roundtrip(ctx):
     private = ctx.choose("private", [True] if kty == "oct" else [True, False])
     params = ctx.deviate("parameters", [None, {"kid": "k1", "use": "sig"}, {"x5t": "t", "x5c": ["AAAA"], "key_ops": ["sign", "verify", "deriveKey"]}])
     form = ctx.choose("export", ["jwk-default", "jwk-private", "jwk-public"] if kty == "oct" else EXPORTS)
-    hist = ctx.deviate("export_history", ["once", "twice", "with-params-then-plain", "mutate-result-then-again"])
+    hist = ctx.deviate("export_history", ["once", "twice", "with-params-then-plain", "mutate-result-then-again", "every-other-form-first"])
     tag = f"{kty}{'/' + jwk['crv'] if 'crv' in jwk else ''}"
     lab = f"{label} via {how} ({'private' if private else 'public'}) params={params} export={form} history={hist}"
     if how == "dict" and params:
@@ -111,7 +111,7 @@ def h_roundtrip(ctx):
     key = k.value
     vs = []
     # ---- export
-    def export():
+    def export(form=form):
         if form == "jwk-default":
             return key.as_dict()
         if form == "jwk-private":
@@ -134,6 +134,10 @@ def h_roundtrip(ctx):
             first.value["x"] = "AAAA"
     if hist == "twice":
         call(export)
+    if hist == "every-other-form-first":
+        for other in (["jwk-default", "jwk-private", "jwk-public"] if kty == "oct" else EXPORTS):
+            if other != form:
+                call(export, other)
     e = call(export)
     exports_private = form in ("jwk-private", "pem-password", "der-password") or (form in ("jwk-default", "pem", "der") and private)
     if form in ("jwk-private", "pem-password", "der-password") and not private:
@@ -166,8 +170,12 @@ def h_roundtrip(ctx):
     else:
         from joserfc.jwk import JWKRegistry
         r2 = call(lambda: type(key).import_key(out, None, PW if form.endswith("password") else None))
+    if form.endswith("password") and not vs:
+        r3 = call(lambda: type(key).import_key(out))
+        if r3.ok:
+            vs.append(viol(f"a password-protected export can be imported without the password ({tag}, {form}, history {hist})", lab))
     if not r2.ok:
-        vs.append(viol(f"re-import of the exported key fails ({tag}, {form})", f"{lab}: {r2.exc!r}"))
+        vs.append(viol(f"re-import of the exported key fails ({tag}, {form}, history {hist})", f"{lab}: {r2.exc!r}"))
         return Outcome("reimport-failed", vs, nontrivial=(label, how, private, form))
     k2 = r2.value
     n1, n2 = numbers(key), numbers(k2)
